@@ -120,6 +120,9 @@ def dds_hash(x: Any) -> PyHash:
             return _algo_str(repr(elt))
         if isinstance(elt, list):
             check_len(elt)
+            if not elt:
+                # The empty sequence must not hash like the empty string.
+                return _algo_bytes(b"\xff__DDS_EMPTY_SEQUENCE__")
             return _algo_str(
                 "|".join([_dds_hash(y, idx) for (idx, y) in enumerate(elt)])
             )
@@ -130,6 +133,8 @@ def dds_hash(x: Any) -> PyHash:
             return _algo_str(str(elt))
         if isinstance(elt, OrderedDict):
             check_len(elt)
+            if not elt:
+                return _algo_bytes(b"\xff__DDS_EMPTY_DICT__")
             # Directly using the ordering of the items in the dictionary.
             return _dds_hash([_hash_dict_tuple(k, v) for (k, v) in elt.items()], None)
         if isinstance(elt, dict):
@@ -138,9 +143,13 @@ def dds_hash(x: Any) -> PyHash:
             # majority of python interpreters out there).
             # Not going to check for obscure corner cases for now.
             check_len(elt)
+            if not elt:
+                return _algo_bytes(b"\xff__DDS_EMPTY_DICT__")
             return _dds_hash([_hash_dict_tuple(k, v) for (k, v) in elt.items()], None)
         if dataclasses.is_dataclass(elt):
             names: List[str] = [f.name for f in dataclasses.fields(elt)]
+            if not names:
+                return _algo_bytes(b"\xff__DDS_EMPTY_DATACLASS__")
             # TODO: this is not entirely accurate. The error message will show a 'list' type, but it is actually
             # a dataclass.
             check_len(names)
